@@ -13,7 +13,7 @@ TRUSTED_BASE = [
 ASSUMPTIONS = [
     'serial (single process) CPU runs; MPI and GPU back ends out of scope',
     'particles carry unique gids (the harness assigns them): --sort-gids then sorts by a key that travels with the particle',
-    'fixed time step; 4 steps on three small problems with PEC-type integrators (2D two-array tank, 3D free-surface block, 2D periodic box) and 12 steps with --reorder-freq 2..6 on a 400-particle periodic box integrated by the shipped GTVFScheme/GTVFIntegrator (first evaluation of a step re-uses the NNPS: update_nnps=False)',
+    'fixed time step; 4 steps on three small problems with PEC-type integrators (2D two-array tank, 3D free-surface block, 2D periodic box) and 12 steps with --reorder-freq 2..6 on a 400-particle periodic box integrated by the shipped GTVFScheme/GTVFIntegrator (first evaluation of a step re-uses the NNPS: update_nnps=False); 6 steps of a non-periodic rarefying disc (1245 particles) whose smoothing length is recomputed from the density inside two update_nnps=True groups (a plain one and one made of sub-groups) so that max(h) grows by >= 25% inside each of them, reference run --nnps tree',
     'group-level interference between two different equations of one group (one writes d_X, another reads s_X) is not in the per-class table',
 ]
 READY = True
@@ -31,8 +31,9 @@ LEVEL_TEXT = ("Lean 4 theorems over every row type, pair function, state, neighb
               "--sort-gids, matched by gid.")
 LEVEL_NOTE = ("Proof of the discipline that makes schedules and neighbour order irrelevant; the system runs are sampled "
               "(quick: ~28 configurations of the two-array problem, every --nnps value sorted and unsorted, + 6 tie traces + 8 configurations "
-              "of the 12-step GTVF problem with re-orders inside the time loop; "
-              "thorough: the full option matrix on three problems + ~55 GTVF configurations, ~1650 runs). Not covered by proof: IEEE rounding, real OpenMP interleavings/memory model, exactness of each "
+              "of the 12-step GTVF problem with re-orders inside the time loop + 8 configurations of the adaptive-h 'rarefy' problem "
+              "(ll, tree, comp_tree, two more binning algorithms, one stratified one; compared with --nnps tree and pairwise; a crashed run is a property failure); "
+              "thorough: the full option matrix on three problems + ~55 GTVF configurations + ~40 'rarefy' configurations over all ten --nnps values, ~1700 runs). Not covered by proof: IEEE rounding, real OpenMP interleavings/memory model, exactness of each "
               "NNPS (C01), interference between different equations of one group, re-ordering inside the multi-stage theorem "
               "(perm_equivariance is per loop). Known findings tolerated: --reorder-freq with sh/esh/strat_hash "
               "(NotImplementedError), z-order family on multi-array problems (C01).")
